@@ -127,6 +127,10 @@ let run_case (t : string list) : string =
      | Ok s -> "OK " ^ String.concat "," (List.map (fun z -> string_of_int (int_of_z z)) s)
      | Err _ -> "ERR"
      | Panic _ -> "PANIC")
+  | ["zbuf"; mx; ks] ->
+    let z0 = { zb_new with zb_max = (if mx = "-" then None else Some (zs mx)) } in
+    let l = if ks = "-" then [] else List.map zs (String.split_on_char ',' ks) in
+    String.concat ";" (List.map (fun ((a, b), c) -> Printf.sprintf "%d:%d:%d" (int_of_z a) (int_of_z b) (int_of_z c)) (zb_cursor_run z0 l))
   | "menc" :: rest ->
     let ints s = if s = "-" then [] else List.map zs (String.split_on_char ',' s) in
     let show l = if l = [] then "-" else String.concat "," (List.map (fun z -> string_of_int (int_of_z z)) l) in
